@@ -21,6 +21,14 @@ Binding
     own XML).
  A3 (several libraries)  TLC's Merge cases and every offline pair of bundled libraries with the same partner: the
     merged schema must refuse every way of saving.
+
+Violation keys (format and cause first, so that one defect = one prefix):
+    <fmt>:<Section>:<what>[:<description kind>]:neq:<merged|unmerged>       reloaded schema != original (`==`)
+    <fmt>:<Section>:<field>[:<kind>]:state:<mode>                           reloaded library entries != specification state
+    <fmt>:<...>:differs-from-<fmt0>:<mode>                                  formats disagree although each equals the original
+    <fmt>:raises-save|raises-load:<Exception[:code]>:<mode>
+    xml-file:<section>:<library|partner>:<field>[:<kind>]:<mode>            independent reading of the saved XML vs specification
+    multimerge:...   second-generation:<key>   bundled:<key>
 """
 import copy
 import hashlib
@@ -177,25 +185,25 @@ def round_trips(s, base, merged_opts, fmts, kinds=None):
                 p = _save(s, fmt, merged, "%s_%s" % (base, ms))
                 paths[(merged, fmt)] = p
             except Exception as ex:  # noqa
-                prob.append(("raises:save:%s:%s:%s" % (fmt, ms, _exc_key(ex)), "saving as %s (%s) raised %s" % (fmt, ms, _exc(ex))))
+                prob.append(("%s:raises-save:%s:%s" % (fmt, _exc_key(ex), ms), "saving as %s (%s) raised %s" % (fmt, ms, _exc(ex))))
                 continue
             try:
                 r = load_schema(p)
             except Exception as ex:  # noqa
-                prob.append(("raises:load:%s:%s:%s" % (fmt, ms, _exc_key(ex)),
+                prob.append(("%s:raises-load:%s:%s" % (fmt, _exc_key(ex), ms),
                              "the %s file saved %s cannot be loaded again: %s" % (fmt, ms, _exc(ex))))
                 continue
             objs[(merged, fmt)] = r
             if not (r == s):
                 k, text = diagnose(s, r, kinds)
-                prob.append(("neq:%s:%s:%s" % (fmt, ms, k), "saved as %s (%s) and reloaded: not equal to the original: %s" % (fmt, ms, text)))
+                prob.append(("%s:%s:neq:%s" % (fmt, k, ms), "saved as %s (%s) and reloaded: not equal to the original: %s" % (fmt, ms, text)))
         # formats agree with one another (reported separately only when each reload equals the original, i.e. when the
         # disagreement is not already reported above)
         got = [f for f in fmts if (merged, f) in objs and objs[(merged, f)] == s]
         for f in got[1:]:
             if not (objs[(merged, got[0])] == objs[(merged, f)]):
                 k, text = diagnose(objs[(merged, got[0])], objs[(merged, f)], kinds)
-                prob.append(("cross:%s-%s:%s:%s" % (got[0], f, ms, k),
+                prob.append(("%s:%s:differs-from-%s:%s" % (f, k, got[0], ms),
                              "schemas reloaded from the %s and the %s file (%s) differ: %s" % (got[0], f, ms, text)))
     return prob, paths, objs
 
@@ -226,7 +234,7 @@ def bundled_case(arg):
             try:
                 out["saved"]["merged" if merged else "unmerged"] = xml_view(p)
             except Exception as ex:  # noqa
-                out["problems"].append(("xml:unreadable:%s" % ("merged" if merged else "unmerged"),
+                out["problems"].append(("xml-file:unreadable:%s" % ("merged" if merged else "unmerged"),
                                         "saved XML cannot be read by the independent reader: %s" % _exc(ex)))
     return out
 
@@ -381,7 +389,7 @@ def concretise(case, seed):
         emit(r, 0)
     std = case.get("mode") == "standard"
     if std:
-        hdr = [('version', "9.%d.%d" % (rng.randint(0, 3), rng.randint(0, 9)))]
+        hdr = [("version", "8.3.0")]      # the only version that is neither "pre-release" nor parsed with pre-8.3 attribute rules
     else:
         hdr = [('version', "1.%d.%d" % (rng.randint(0, 3), rng.randint(0, 9))), ('library', case["hdr"]["library"][0]),
                ('withStandard', case["hdr"]["withStandard"]), ('unmerged', "True")]
@@ -450,9 +458,9 @@ def _cmp_section(sec, got, exp, partner, merged, kinds):
             want.setdefault(k, e)
     ms = "merged" if merged else "unmerged"
     for k in sorted(set(want) - set(got)):
-        prob.append(("xml:%s:%s:missing" % (ms, sec), "saved %s XML does not list %s %r" % (ms, sec, k)))
+        prob.append(("xml-file:%s:missing:%s" % (sec, ms), "saved %s XML does not list %s %r" % (ms, sec, k)))
     for k in sorted(set(got) - set(want)):
-        prob.append(("xml:%s:%s:extra" % (ms, sec), "saved %s XML lists %s %r which the schema does not have%s"
+        prob.append(("xml-file:%s:extra:%s" % (sec, ms), "saved %s XML lists %s %r which the schema does not have%s"
                      % (ms, sec, k, " (partner entry in an unmerged file)" if k in partner else "")))
     for k in sorted(set(got) & set(want)):
         g, w = got[k], want[k]
@@ -460,7 +468,7 @@ def _cmp_section(sec, got, exp, partner, merged, kinds):
             if fld in w and g.get(fld) != w[fld]:
                 kd = kinds.get("%s:%s" % ({"tags": "Tags", "ucs": "UnitClasses", "units": "Units", "others": "ValueClasses"}[sec], k), "")
                 who = "partner" if k in partner and k not in exp else "library"
-                prob.append(("xml:%s:%s:%s:%s%s" % (ms, sec, who, fld, (":" + kd) if fld == "desc" and kd else ""),
+                prob.append(("xml-file:%s:%s:%s%s:%s" % (sec, who, fld, (":" + kd) if fld == "desc" and kd else "", ms),
                              "saved %s XML lists %s %r with %s %r, the schema has %r" % (ms, sec, k, fld, g.get(fld), w[fld])))
                 break
     return prob
@@ -470,7 +478,7 @@ def judge_xml(path, merged, case, conc):
     try:
         got = xml_view(path)
     except Exception as ex:  # noqa
-        return [("xml:unreadable:%s" % ("merged" if merged else "unmerged"), "saved XML cannot be read: %s" % _exc(ex))]
+        return [("xml-file:unreadable:%s" % ("merged" if merged else "unmerged"), "saved XML cannot be read: %s" % _exc(ex))]
     view = case["xmlMerged" if merged else "xmlUnmerged"]
     exp = _expected_rows(view, conc["descs"])
     partner = _G["std_partner"] if case.get("mode") == "standard" else _G["partner"]
@@ -479,7 +487,7 @@ def judge_xml(path, merged, case, conc):
     h = view["hdr"]
     want_h = {"library": h["library"], "withStandard": h["withStandard"], "unmerged": h["unmerged"], "version": conc["version"]}
     if got["hdr"] != want_h:
-        prob.append(("xml:%s:header" % ms, "saved %s XML header %s, expected %s" % (ms, got["hdr"], want_h)))
+        prob.append(("xml-file:header:%s" % ms, "saved %s XML header %s, expected %s" % (ms, got["hdr"], want_h)))
     for sec in ("tags", "ucs", "units", "others"):
         prob += _cmp_section(sec, got[sec], exp[sec], partner[sec], merged, conc["kinds"])
     return prob
@@ -571,7 +579,7 @@ def execute(item):
         res["saves"] += 3 * len(mopts)
         # independent of HedSchema.__eq__: the library entries of every reloaded object are the specification's state
         for (merged, fmt), r in sorted(objs.items()):
-            if any(k.split(":")[1:3] == [fmt, "merged" if merged else "unmerged"] for k, _ in prob):
+            if any(k.split(":")[0] == fmt and k.endswith(":merged" if merged else ":unmerged") for k, _ in prob):
                 continue
             gr = project(r, not std, vcs)
             for sec in gr:
@@ -580,8 +588,9 @@ def execute(item):
                     a, b = gr[sec].get(ks[0]), want[sec].get(ks[0])
                     fld = "missing" if a is None else "extra" if b is None else [f for f in b if a.get(f) != b[f]][0]
                     kd = conc["kinds"].get("%s:%s" % ({"tags": "Tags", "ucs": "UnitClasses", "units": "Units", "others": "ValueClasses"}[sec], ks[0].split(":")[-1]), "")
-                    res["problems"].append(("state:%s:%s:%s:%s%s" % (fmt, "merged" if merged else "unmerged", sec, fld,
-                                                                     ":" + kd if fld == "desc" and kd else ""),
+                    sname = {"tags": "Tags", "ucs": "UnitClasses", "units": "Units", "others": "ValueClasses"}[sec]
+                    res["problems"].append(("%s:%s:%s%s:state:%s" % (fmt, sname, fld, ":" + kd if fld == "desc" and kd else "",
+                                                                     "merged" if merged else "unmerged"),
                                             "schema reloaded from the %s %s file has %s %r = %s, the original has %s"
                                             % ("merged" if merged else "unmerged", fmt, sec, ks[0], a, b)))
                     break
@@ -594,7 +603,7 @@ def execute(item):
         r = objs.get((True, fmt2))
         if r is not None and r == s and not res["problems"] and not std:
             p2, _, _ = round_trips(r, os.path.join(work, "t"), [False], [FORMATS[(item["id"] // 3) % 3]], kinds)
-            res["problems"] += [("gen2:" + k, "schema reloaded from the merged %s file, then " % fmt2 + t) for k, t in p2]
+            res["problems"] += [("second-generation:" + k, "schema reloaded from the merged %s file, then " % fmt2 + t) for k, t in p2]
             res["saves"] += 1
         return res
     finally:
@@ -717,15 +726,17 @@ def _run_rest(ctx, pool, rb, rm):
     depth = 2 if quick else 3
     made = []
     try:
-        cfg = "MC_SchemaStore.cfg"
+        cfg, cfg_std = "MC_SchemaStore.cfg", "MC_SchemaStore_standard.cfg"
         if not quick:
             cfg = _cfg_variant("MC_SchemaStore_d3.cfg", [("MaxEdits = 2", "MaxEdits = 3")])
             made.append(cfg)
+            cfg_std = _cfg_variant("MC_SchemaStore_standard_d3.cfg", [("MaxEdits = 2", "MaxEdits = 3"), ('MODE = "partnered"', 'MODE = "standard"')])
+            made.append(cfg_std)
         r = ctx.tlc("MC_SchemaStore", cfg, workers=16, coverage=True, timeout=3000,
                     label="design: RoundTrip, FormatsAgree, MultiMergeRefuses, WriterSelects, XmlDeclarative; partnered library, <= %d edits" % depth)
         _extra_coverage(ctx, r)
-        r = ctx.tlc("MC_SchemaStore", "MC_SchemaStore_standard.cfg", workers=16, coverage=True, timeout=3000,
-                    label="design: same invariants, stand-alone standard schema, <= 2 edits")
+        r = ctx.tlc("MC_SchemaStore", cfg_std, workers=16, coverage=True, timeout=3000,
+                    label="design: same invariants, stand-alone standard schema, <= %d edits" % depth)
         _extra_coverage(ctx, r)
         sens = {}
         for name, what in (("keepinlib", "writer keeps inLibrary when saving unmerged"),
@@ -822,16 +833,16 @@ def _run_rest(ctx, pool, rb, rm):
         ctx.note("saved_xml_validated_by_tlc", {"accepted": len(acc), "rejected": len(rej)})
         for k, (why, detail) in sorted(rej.items()):
             version, m, orig, view = tinfo[k - 1]
-            ctx.violation("bundled:xml:%s:%s" % (m, why),
+            ctx.violation("bundled:xml-file:%s:%s" % (why, m),
                           "bundled schema %s saved as %s XML: the independent reader finds a different %s than the original lists (first "
                           "difference at %r)" % (version, m, why, detail), {"kind": "bundled", "version": version})
         for version, m, orig, view in tinfo:
             for fld in ("prologue", "epilogue"):
                 if orig[fld] != view[fld]:
-                    ctx.violation("bundled:xml:%s:%s" % (m, fld), "bundled schema %s saved as %s XML: %s differs" % (version, m, fld),
+                    ctx.violation("bundled:xml-file:%s:%s" % (fld, m), "bundled schema %s saved as %s XML: %s differs" % (version, m, fld),
                                   {"kind": "bundled", "version": version})
             if orig["hdr"]["version"] != view["hdr"]["version"]:
-                ctx.violation("bundled:xml:%s:version" % m, "bundled schema %s saved as %s XML: version %r" % (version, m, view["hdr"]["version"]),
+                ctx.violation("bundled:xml-file:version:%s" % m, "bundled schema %s saved as %s XML: version %r" % (version, m, view["hdr"]["version"]),
                               {"kind": "bundled", "version": version})
     # ---- A3 verdicts (bundled pairs)
     nm = 0
@@ -874,8 +885,9 @@ def _run_rest(ctx, pool, rb, rm):
     for it in items[3:40:9]:
         ctx.sample({"edits": it["case"]["edits"], "mediawiki": it["conc"]["text"].split("!# start schema")[1].split("'''Unit modifiers'''")[0][:500]})
     ctx.assumptions += [
-        "generated schemas are partnered library schemas over HED %s written as MediaWiki text (the documented way to make a schema); "
-        "the stand-alone standard-schema mode of the specification is model-checked but replayed only through the bundled standard schemas" % PARTNER,
+        "generated schemas are (a) partnered library schemas over HED %s and (b) small stand-alone standard schemas (the partner slice of "
+        "the specification plus the partner's attribute/property/modifier/value-class sections taken over unchanged), both written as "
+        "MediaWiki text (the documented way to make a schema) and loaded with from_string" % PARTNER,
         "description strings: printable ASCII without []{} plus printable non-ASCII characters, no leading/trailing blanks, one line",
         "`==` of HedSchema is the oracle for equality (it ignores the unmerged header flag); the saved XML is judged through vf/facts.py",
         "compliance of a bundled schema = check_compliance(check_for_warnings=False) returns no issue",
@@ -892,8 +904,20 @@ def replay(obj):
             path = dict(facts.bundled())[obj["version"]]
             o = bundled_case((obj["version"], path, work))
             prob = list(o["problems"])
-            # the vocabulary-scale XML comparison needs TLC; replay re-checks it with the recorded verdict class only
-            return (not prob), "; ".join(t for _, t in prob) or "round trips agree (XML content is judged by TLC in the full run)"
+            # what the saved XML lists is judged by the specification (TLC, one small run)
+            trace = {"schemas": [_trace_schema(xml_view(path))], "cases": []}
+            modes = sorted(o["saved"])
+            for m in modes:
+                trace["cases"].append({"schema": 1, "merged": m == "merged", "saved": _trace_schema(o["saved"][m])})
+            if trace["cases"]:
+                tf = os.path.join(work, "xml_trace.json")
+                with open(tf, "w") as fh:
+                    json.dump(trace, fh)
+                rt = tlc.run("Trace_SchemaStore", "Trace_SchemaStore.cfg", workers=2, env={"TRACE_FILE": tf}, workdir=work, timeout=900)
+                for a, b, c in re.findall(r'<<"REJECT", (\d+), "([^"]*)", "([^"]*)">>', rt.stdout):
+                    prob.append(("bundled:xml-file:%s:%s" % (b, modes[int(a) - 1]),
+                                 "saved %s XML differs from what the original lists: %s (first difference at %r)" % (modes[int(a) - 1], b, c)))
+            return (not prob), "; ".join(t for _, t in prob) or "round trips agree and the saved XML lists what the specification prescribes"
         if obj["kind"] == "multimerge":
             o = multimerge_case((tuple(obj["versions"]), work, "mm"))
             prob = o["problems"]
